@@ -29,6 +29,7 @@ type Contract struct {
 	Kind       string // func loop closure lemma trusted spec
 	Params     []string
 	Requires   []*Clause
+	Defines    []*Clause // closures: facts that hold of the closure value (self) by definition (uninterpreted attributes of function values)
 	Relies     []*Clause // goroutine bodies: facts about shared state that every goroutine preserves (assumed at entry and after interference, proved at every exit)
 	Ensures    []*Clause
 	Invariants []*Clause
@@ -155,7 +156,7 @@ var clauseKW = map[string]bool{
 	"requires": true, "ensures": true, "invariant": true, "modifies": true, "decreases": true,
 	"helper": true, "inline": true, "pure": true, "nowf": true, "use": true, "protocol": true,
 	"yields": true, "param": true, "contract": true, "applies": true, "opaque": true, "entry": true, "spec": true,
-	"terminal": true, "allocates": true, "pred": true, "trigger": true, "assumed": true, "partial": true, "stream": true, "resumes": true, "refines": true, "field": true, "implements": true, "tag": true, "ghostset": true, "records": true, "stops": true, "subject": true, "methodvalue": true, "logic": true, "axiom": true, "nilrecv": true, "verify": true, "after": true, "tracks": true, "channel": true, "carries": true, "rely": true,
+	"terminal": true, "allocates": true, "pred": true, "trigger": true, "assumed": true, "partial": true, "stream": true, "resumes": true, "refines": true, "field": true, "implements": true, "tag": true, "ghostset": true, "records": true, "stops": true, "subject": true, "methodvalue": true, "logic": true, "axiom": true, "nilrecv": true, "verify": true, "after": true, "tracks": true, "channel": true, "carries": true, "rely": true, "defines": true, "fuel": true,
 }
 
 var labelRe = regexp.MustCompile(`^([A-Za-z_][\w']*)\s*(\[[A-Za-z0-9, ]*\])?\s*:`)
@@ -504,6 +505,17 @@ func (cs *ContractSet) ParseContractLines(file string, lines []string, poss []st
 		case "terminal":
 			if curProto != nil {
 				curProto.Term = addClause("terminal", it.rest, it.pos)
+			}
+		case "fuel":
+			// fuel N (spec functions): N unfoldings at top-level applications instead of the default two
+			if cur != nil {
+				cur.Flags["fuel:"+strings.TrimSpace(it.rest)] = true
+			}
+		case "defines":
+			if cur != nil {
+				if c := addClause("defines", it.rest, it.pos); c != nil {
+					cur.Defines = append(cur.Defines, c)
+				}
 			}
 		case "rely":
 			if cur != nil {
